@@ -153,7 +153,7 @@ func runGroup(c *mon.Ctx, g *groups.Group) {
 	}
 	g.MSMSetPool(reps)
 	race := *mode == "race"
-	sizes := []int{0, 1, 2, 3, 17, 255, 1000, 4096, 6000}
+	sizes := []int{0, 1, 2, 3, 17, 255, 1000, 4096, 6001}
 	if c.Thorough() && !race {
 		sizes = append(sizes, 1<<14, 1<<16)
 		if f.Deg() > 1 {
@@ -235,6 +235,35 @@ func runGroup(c *mon.Ctx, g *groups.Group) {
 					c.Class(fmt.Sprintf("%s/MultiExp/%s/tasks%d/procs%d", N, cls, nb, gmp))
 				}
 				caseNo++
+			}
+		}
+	}
+	// the regime in which the routine picks its largest window on its own (more than about 2^18.8 points; the forced
+	// window sizes below go through the inner routine and never through that choice)
+	if !race && (c.Thorough() || (f.Deg() == 1 && g.FrBits <= 256)) {
+		n := 1<<19 + 1
+		hs, ht := []string{"random"}, []int{0}
+		if c.Thorough() {
+			hs, ht = []string{"random", "small"}, []int{0, 16, 3}
+		}
+		for hi, ss := range hs {
+			sc := shapeScalars(e, ss, n, bestC(n, g.FrBits))
+			idx := shapePoints(e, "distinct", n)
+			want := e.expected(idx, sc)
+			for ti, nb := range ht {
+				variant := []string{"jac", "aff"}[(hi+ti)%2]
+				key := N + "/MultiExp"
+				desc := func() string {
+					return fmt.Sprintf("MultiExp[%s](n=%d scalars=%s points=distinct NbTasks=%d)", variant, n, ss, nb)
+				}
+				c.Current(desc())
+				var out groups.Rep
+				var err error
+				if !mon.Watch(c, key, desc, 5*limit, func() { out, err = g.MultiExp(idx, sc, nb, variant) }, n) {
+					return
+				}
+				check("MultiExp", key, fmt.Sprintf("n%d/%s/distinct", n, ss), out, err, want, desc)
+				c.Class(fmt.Sprintf("%s/MultiExp/n%d/%s/tasks%d", N, n, ss, nb))
 			}
 		}
 	}
